@@ -915,8 +915,41 @@ func init() {
 		tail := 0
 		wantMerge := rng.Chance(0.3)
 		wantRestart := rng.Chance(0.3)
+		// a third of the runs begin with "twins": two records of the same total length whose keys stand in a prefix
+		// relation (k with an L-byte value, k+x with L-1 bytes) or differ in one byte only - what a transplant needs
+		// to tell a complete key comparison from a partial one (seeded change S76)
+		var twins []*Op
+		if rng.Chance(0.35) {
+			k := s.Keys[rng.Intn(len(s.Keys))]
+			if len(k) < 200 {
+				l := rng.Range(2, 40)
+				var k2 []byte
+				l2 := l
+				switch rng.Intn(3) {
+				case 0:
+					k2, l2 = append(append([]byte{}, k...), []byte{'0', 0x01, 0xff}[rng.Intn(3)]), l-1
+				case 1:
+					k2 = append([]byte{}, k...)
+					k2[len(k2)-1] ^= 0x01 // same length, last byte differs
+				default:
+					k2 = append([]byte{}, k...)
+					k2[0] ^= 0x01 // same length, first byte differs
+				}
+				if len(k2) > 0 && k2[len(k2)-1] != 0 {
+					s.Keys = append(s.Keys, k2)
+					s.tag += 2
+					twins = []*Op{
+						{K: "put", Key: k, Val: &Val{Len: l, Tag: s.tag - 1}, Dt: 1000},
+						{K: "put", Key: k2, Val: &Val{Len: l2, Tag: s.tag}, Dt: 1000},
+					}
+				}
+			}
+		}
 		return func(r *Runner, i int) *Op {
-			if op := plain(r, i); op != nil {
+			if i < len(twins) {
+				return twins[i]
+			}
+			if op := plain(r, i-len(twins)); op != nil {
 				return op
 			}
 			tail++
